@@ -1117,6 +1117,7 @@ func (ro *RedisOutput) sendCmdsBatch(replayWait usync.WaitCloser, conn client.Re
 				length += len(item.Args[i].([]byte))
 			}
 
+			prevOffset := lastOffset
 			lastOffset = item.Offset
 			if item.Cmd == "ping" { // skip ping command, keepaliveTicker handle it[multi/exec, ping issue for cluster]
 				continue
@@ -1126,7 +1127,13 @@ func (ro *RedisOutput) sendCmdsBatch(replayWait usync.WaitCloser, conn client.Re
 			if transactionMode {
 				if needFlush {
 					// flush previous data
-					err := sendFunc(transactionBatch, shouldUpdateCP, lastOffset)
+					// a select/multi barrier is not part of the flushed batch, so the
+					// checkpoint written with it must stop before the barrier
+					flushOffset := lastOffset
+					if txnStatus != txnStatusCommit {
+						flushOffset = prevOffset
+					}
+					err := sendFunc(transactionBatch, shouldUpdateCP, flushOffset)
 					if err != nil {
 						return err
 					}
